@@ -71,7 +71,16 @@ class World:
             model["types"].append({"kind": "abstract", "name": a})
         concretes = []
         for i in range(rng.randint(0, 4)):
-            t = {"kind": "section", "name": "c%d" % (i + 1), "keytype": None,
+            # names that contain one another (c1, c1-x, x): admission goes
+            # by the whole name, never by a part of it
+            tname = "c%d" % (i + 1)
+            if concretes and rng.random() < 0.35:
+                base_n = rng.choice(concretes)
+                cand = rng.choice([base_n + "-x", base_n + "x",
+                                   "x" + base_n, base_n[:1]])
+                if cand not in concretes and cand not in abstracts:
+                    tname = cand
+            t = {"kind": "section", "name": tname, "keytype": None,
                  "datatype": "wrap" if rng.random() < 0.2 else None,
                  "extends": None, "implements": None,
                  "children": [_key_alpha()]}
